@@ -327,6 +327,12 @@ def classify(meta, case, exp, got):
 
         def role(c):
             return 'end' if c is None else arith_role(c[1])
+    if cat == 'cmp:total_ordering-without-eq-method' or cat.startswith('cmp:total_ordering-without-eq-method('):
+        # the directive is dropped at compile time: every divergence in such a family has this one cause
+        return 'cmp:total_ordering-without-eq-method'
+    if cat == 'cmp:total_ordering':
+        # decorated class hierarchy with subclass operands / decorated subclass: several interacting mechanisms
+        return 'cmp:total_ordering-with-subclassing'
     if got[0] == 'ok' and got[1][0] == 'NotImplementedType' and exp[0] == 'exc':
         return '%s:%s:NotImplemented-returned-as-result-instead-of-TypeError' % (cat, pc)
     if e is None and g is None:
@@ -350,6 +356,8 @@ def classify(meta, case, exp, got):
             rule = 'python-subclass-on-right:reflected-first-although-not-overridden'
     if rule is None:
         rule = '%s->%s' % (role(e), role(g))
+        if not iscmp and form != 'pow3' and pc == 'pysubclass-vs-related':
+            rule = 'other-call-order-difference'
     return '%s:%s:%s' % (cat, pc, rule)
 
 
